@@ -398,7 +398,7 @@ fn last_room(rx: &mut tokio::sync::broadcast::Receiver<Event>, rid: &[u8; 16]) -
     while let Ok(e) = rx.try_recv() { if let Event::RoomModified(room) = e { if &room.id == rid { r = Some(room); } } }
     r
 }
-fn asc(ctx: &mut Ctx, n: &RoomNode) -> RM { let r = ctx.rm_of(n); r.read_order() }
+fn asc(ctx: &mut Ctx, n: &RoomNode) -> RM { ctx.rm_of(n) }   // RoomNode::read returns the lists oldest first
 
 async fn e2e(ctx: &mut Ctx, out: &mut Out) {
     verif_clock::set(BASE);
